@@ -5,6 +5,8 @@ the specification IpcHub/Spec/RtspAutomaton.lean, helper lemmas IpcHub/Lemmas/Rt
 -/
 import IpcHub.Lemmas.RtspSession
 import IpcHub.Lemmas.RtspOrder
+import IpcHub.Lemmas.RtspEffects
+import IpcHub.Lemmas.WspSim
 namespace IpcHub.Props.C12
 open IpcHub.Rtsp IpcHub.RtspSpec
 
@@ -163,6 +165,17 @@ theorem c12_resources_follow_state (ws : Bool) (wsPath : List Char) (ins : List 
       | playing => rw [(hi.playing hc hs).2] at hp; cases hp
       | recording => rfl
 
+/-- Where things happen: for every configuration, state, request and environment, a consumer is
+    attached (StartConsume / AddMember) only by a PLAY whose response is 200, and only AFTER that
+    response has been written (so no media precedes the PLAY response on the connection); a stream
+    is registered only by a RECORD that is answered 200; every other effect belongs to TEARDOWN. -/
+theorem c12_effects (cfg : Cfg) (s : Sess) (r : Req) (e : Env) (eff : Effect) (h : Ev.eff eff ∈ (step cfg s r e).2) :
+    (r.method = .play ∧ (eff = .attachTcp ∨ eff = .attachUdp ∨ eff = .attachMc) ∧
+      ∃ x, (step cfg s r e).2 = [.resp x, .eff eff] ∧ x.code = 200) ∨
+    (r.method = .record ∧ eff = .register ∧ ∃ x, (step cfg s r e).2 = [.eff eff, .resp x] ∧ x.code = 200) ∨
+    (r.method = .teardown ∧ (eff = .closeConn ∨ eff = .releaseConsumer ∨ eff = .releaseStream)) :=
+  step_effs cfg s r e eff h
+
 /-- TEARDOWN or disconnect releases whatever the session held: in every state, after a TEARDOWN
     request or a hang-up the session is closed, holds no consumer and no published stream, and the
     events contain the release of each resource that was held. -/
@@ -196,6 +209,47 @@ theorem c12_teardown_releases (s : Sess) (i : Input) (hopen : s.closed = false)
       simp [stepInput, step, hopen, hm]
     simp only [this]
     exact ⟨rfl, rfl, rfl, key _ (Or.inr ⟨_, rfl⟩)⟩
+
+/-- The same for the WSP control channel (service/wsp/session.go), with its own gate table as
+    regenerated from the source: EVERY dialogue of WRAPped requests and hang-ups is accepted by the
+    reference automaton in its WSP flavour (play only: ANNOUNCE / RECORD always 455; PAUSE legal only
+    while playing and refused with 455 before; one response per request; consumer attached exactly
+    while playing; TEARDOWN and disconnect release it). -/
+theorem c12_wsp_accepted (wsPath : List Char) (ins : List Input) :
+    accepts .wsp (wtrace genWspGate (WSess.init wsPath) ins) = true := by
+  have h := wtrace_mrun genWspGate c12_source_facts.2.2.1 ins (WSess.init wsPath) (winv_init wsPath)
+  have h0 : wmstateOf (WSess.init wsPath) = MState.init := rfl
+  rw [h0] at h
+  simp [accepts, h]
+
+/-- The defect that was fixed on the WSP channel: with the old gate (PAUSE admitted in the initial
+    state) a PAUSE before any PLAY is answered 200, which the reference automaton rejects. -/
+theorem c12_wsp_pause_witness :
+    let oldGate : Status → Method → Bool := fun st m =>
+      match st with
+      | .ready => m == .setup || m == .play
+      | .playing => m == .play || m == .pause
+      | _ => !(m == .play || m == .record)
+    ∀ (e : Env), verdict .wsp (wtrace oldGate (WSess.init []) [.req { (default : Req) with method := .pause } e])
+      = "illegal-method-not-455" := by
+  intro oldGate e
+  rfl
+
+/-- The other defect that was fixed: with the old `onPlay` tail (`status = playing` whenever the role
+    function returned nil) a PLAY refused with 461 leaves the session "playing": the following SETUP is
+    refused with 455 although it is legal, which the reference automaton rejects. -/
+theorem c12_refused_play_stuck_witness :
+    let old : Cfg := { genCfg with playingNeedsOk := false }
+    let env : Env := { lookup := fun _ => some { sdp := 1, mc := none }, sdp := fun _ => { ok := true, medias := [(.video, "t=1".toList)] },
+                       urlNorm := fun _ => none, permPull := true, permPush := true, udpOk := true }
+    let rq (m : Method) (sp tr : String) : Input :=
+      .req { method := m, cseq := [], path := "/a".toList, setupPath := sp.toList, transport := tr.toList,
+             ctypeSdp := false, range := [], body := 0 } env
+    verdict .rtsp (trace old (Sess.init false [])
+      [rq .describe "rtsp://h:554/a" "", rq .setup "rtsp://h:554/a/t=1" "RTP/AVP/TCP;interleaved=0-1",
+       rq .setup "rtsp://h:554/a/t=1" "RTP/AVP;multicast", rq .play "rtsp://h:554/a" "",
+       rq .setup "rtsp://h:554/a/t=1" "RTP/AVP/TCP;interleaved=0-1"]) = "legal-method-455" := by
+  decide
 
 /-- Candidate 29 (fixed): with the old `onPlay` (the `status == statusPlaying` branch returns
     without writing) a PLAY on a playing session gets no response at all. -/
